@@ -262,7 +262,7 @@ def perturb(doc, r):
     """(perturbed copy, name of the perturbation) - the copy differs from doc as data, or (None, None)."""
     paths = list(_paths(doc))
     r.shuffle(paths)
-    kinds = ["type", "char", "empty", "swap", "emptycontainer", "dropkey", "nullify"]
+    kinds = ["type", "char", "empty", "swap", "emptycontainer", "dropkey", "addkey", "nullify"]
     r.shuffle(kinds)
     for kind in kinds:
         for path, v in paths:
@@ -307,6 +307,12 @@ def perturb(doc, r):
                 w = dict(v)
                 del w[r.choice(sorted(w))]
                 return _replace(doc, path, w), "drop-key"
+            elif kind == "addkey" and isinstance(v, dict):
+                w = dict(v)
+                k = next((c for c in ("zz", "new", "k9", "a0") if c not in w), None)
+                if k is not None:
+                    w[k] = r.choice((1, "v", None, [], {}))
+                    return _replace(doc, path, w), "add-key"
             elif kind == "nullify" and v is not None and path:
                 return _replace(doc, path, None), "value->null"
     return None, None
